@@ -18,7 +18,7 @@ import shutil
 import sys
 import warnings
 
-from vlib import harness
+from vlib import c12_shapes, harness
 
 ID = "C12"
 LEVEL = "exploration"
@@ -40,6 +40,7 @@ FLOORS = {"quick": {"histories": 800, "calls_checked": 2500, "old_version_calls"
 
 EXEC = []
 _uid = [0]
+_shape_i = [0]
 SESSION = os.path.join(harness.VERIF, "checks", "c12_session.py")
 
 
@@ -93,7 +94,15 @@ def cases(tier, seed):
 # same-session definers
 
 
-def src_of(style, k):
+def OUT(t, x):
+    t = c12_shapes.norm(t)
+    EXEC.append((t, x))
+    return (t, x)
+
+
+def src_of(style, k, shape=None):
+    if shape and style == "cells":
+        return "\n" * (k % 2) + c12_shapes.text(shape, k)
     if style == "lambda":
         return f"f = lambda x: EXEC.append(('v{k}', x)) or ('v{k}', x)\n"
     if style == "nested":
@@ -102,12 +111,12 @@ def src_of(style, k):
     return f"{pad}def f(x):\n    EXEC.append(('v{k}', x))\n    return ('v{k}', x)\n"
 
 
-def define_cell(style, k):
+def define_cell(style, k, shape=None):
     _uid[0] += 1
     fn = f"<c12-cell-{os.getpid()}-{_uid[0]}>"
-    src = src_of(style, k)
+    src = src_of(style, k, shape)
     linecache.cache[fn] = (len(src), None, src.splitlines(True), fn)
-    g = {"__name__": "c12cells", "EXEC": EXEC}
+    g = {"__name__": "c12cells", "EXEC": EXEC, "OUT": OUT}
     exec(compile(src, fn, "exec"), g)
     return g["f"]
 
@@ -131,8 +140,11 @@ def samefile_module(d):
     return mod
 
 
-def run_history(style, h, ctx, d):
+def run_history(style, h, ctx, d, shape=None):
     from joblib import Memory
+    if shape:
+        ctx.count("shaped_histories")
+        ctx.count("shape:" + shape)
     cache = os.path.join(d, f"cache{_uid[0]}")
     _uid[0] += 1
     with warnings.catch_warnings():
@@ -144,8 +156,9 @@ def run_history(style, h, ctx, d):
     sys.modules.pop("c12reload", None)
     versions_defined = []
     nontrivial = False
-    desc = dict(style=style, history=h)
+    desc = dict(style=style, history=h, shape=shape)
     swap_holder = {}
+    style_key = style + (":" + shape if shape else "")
     for idx, s in enumerate(h):
         with warnings.catch_warnings():
             warnings.simplefilter("ignore")
@@ -153,20 +166,24 @@ def run_history(style, h, ctx, d):
                 k = s[1]
                 if style == "reload":
                     with open(modfile, "w") as f:
-                        f.write(f"EXEC = []\n\n\ndef f(x):\n    EXEC.append(('v{k}', x))\n    return ('v{k}', x)\n" + "# pad\n" * k)
+                        if shape:
+                            f.write("EXEC = []\nOUT = None\n\n\n" + c12_shapes.text(shape, k) + "# pad\n" * k)
+                        else:
+                            f.write(f"EXEC = []\n\n\ndef f(x):\n    EXEC.append(('v{k}', x))\n    return ('v{k}', x)\n" + "# pad\n" * k)
                     importlib.invalidate_caches()
                     if "c12reload" in sys.modules:
                         mod = importlib.reload(sys.modules["c12reload"])
                     else:
                         mod = importlib.import_module("c12reload")
                     mod.EXEC = EXEC
+                    mod.OUT = OUT
                     fn = mod.f
                     c = mem.cache(fn)
                     live[k] = c
                     # joblib reads the source from the file at the wrapper's first call: do it before the next rewrite
                     got = c(-1)
                     if got != (f"v{k}", -1):
-                        ctx.violation(f"wrong-version:{style}", f"warm-up call of freshly defined version {k} returned {got}; {desc}", desc)
+                        ctx.violation(f"wrong-version:{style_key}", f"warm-up call of freshly defined version {k} returned {got}; {desc}", desc)
                         return
                 elif style == "samefile":
                     if "mod" not in swap_holder:
@@ -181,7 +198,7 @@ def run_history(style, h, ctx, d):
                         swap_holder["f"].__code__ = fn.__code__     # the code object of the one cached function is swapped
                     live = {k: swap_holder["c"]}                     # only the newest code is live
                 else:
-                    live[k] = mem.cache(define_cell(style, k))
+                    live[k] = mem.cache(define_cell(style, k, shape))
                 versions_defined.append(k)
             else:
                 kind, j, a = s
@@ -196,7 +213,7 @@ def run_history(style, h, ctx, d):
                     else:
                         got = live[j](a)
                 except Exception as e:  # noqa
-                    ctx.violation(f"call-raised:{style}", f"call of version {j} raised {type(e).__name__}: {e}; {desc}", desc)
+                    ctx.violation(f"call-raised:{style_key}", f"call of version {j} raised {type(e).__name__}: {e}; {desc}", desc)
                     return
                 ctx.count("calls_checked")
                 if versions_defined and j != versions_defined[-1]:
@@ -205,14 +222,14 @@ def run_history(style, h, ctx, d):
                 if got != (f"v{j}", a):
                     latest = versions_defined[-1]
                     key = "older-definition-served-newer-value" if j != latest else "newer-definition-served-older-value"
-                    ctx.violation(f"{key}:{style}", f"step {idx}: version {j} called with {a} returned {got}; history {h}", desc)
+                    ctx.violation(f"{key}:{style_key}", f"step {idx}: version {j} called with {a} returned {got}; history {h}", desc)
                     return
                 ran = EXEC[before:]
                 if kind == "force" and ran != [(f"v{j}", a)]:
-                    ctx.violation(f"forced-call-did-not-execute:{style}", f"step {idx}: call() of version {j} executed {ran}; {desc}", desc)
+                    ctx.violation(f"forced-call-did-not-execute:{style_key}", f"step {idx}: call() of version {j} executed {ran}; {desc}", desc)
                     return
                 if ran and ran != [(f"v{j}", a)]:
-                    ctx.violation(f"wrong-code-executed:{style}", f"step {idx}: calling version {j} executed {ran}; {desc}", desc)
+                    ctx.violation(f"wrong-code-executed:{style_key}", f"step {idx}: calling version {j} executed {ran}; {desc}", desc)
                     return
     if nontrivial and len(set(versions_defined)) >= 2:
         ctx.sig((style, h))
@@ -269,6 +286,12 @@ def run_case(case, ctx):
                     ctx.evaluated()
                     run_history(st, [tuple(s) for s in item["h"]], ctx, d)
                     del EXEC[:]
+                    if st in ("cells", "reload") and len(item["h"]) >= 3:
+                        # the same history with the versions' difference placed elsewhere in the definition
+                        _shape_i[0] += 1
+                        ctx.evaluated()
+                        run_history(st, [tuple(s) for s in item["h"]], ctx, d, shape=c12_shapes.NAMES[_shape_i[0] % len(c12_shapes.NAMES)])
+                        del EXEC[:]
         else:
             rng = harness.rng_for(ctx.seed, ID, "rand", case["i"])
             alpha = steps_alphabet(3, 3, force=True)
@@ -280,7 +303,8 @@ def run_case(case, ctx):
                     if valid_history(h + [s]):
                         h.append(s)
                 ctx.evaluated()
-                run_history(rng.choice(["cells", "samefile", "samefile", "lambda", "nested", "reload", "codeswap"]), h, ctx, d)
+                st = rng.choice(["cells", "samefile", "samefile", "lambda", "nested", "reload", "codeswap"])
+                run_history(st, h, ctx, d, shape=rng.choice(c12_shapes.NAMES) if st in ("cells", "reload") and rng.random() < 0.7 else None)
                 del EXEC[:]
             if case["i"] % 20 == 0:
                 ctx.sample(dict(style="random", history=h))
@@ -301,6 +325,10 @@ def run_processes(case, ctx):
     d = harness.mkscratch("vjl-c12p-")
     try:
         nsess = rng.randint(3, 6)
+        shape = rng.choice([None] + c12_shapes.NAMES)
+        if shape:
+            ctx.count("shaped_histories")
+            ctx.count("shape:" + shape)
         versions = [rng.randint(1, 3)]
         for _ in range(nsess - 1):
             versions.append(versions[-1] if rng.random() < 0.45 else rng.randint(1, 3))
@@ -312,7 +340,7 @@ def run_processes(case, ctx):
             args = [rng.randint(0, 2) for _ in range(rng.randint(1, 4))]
             if si > 0 and versions[si - 1] != k:
                 known = set()
-            cfg = dict(style=style, version=k, args=args, dir=d, log=log)
+            cfg = dict(style=style, version=k, args=args, dir=d, log=log, shape=shape)
             cf, of = os.path.join(d, f"cfg{si}.json"), os.path.join(d, f"out{si}.json")
             with open(cf, "w") as f:
                 json.dump(cfg, f)
@@ -323,12 +351,12 @@ def run_processes(case, ctx):
                 ctx.inconclusive("session-failed", dict(cfg=cfg, err=r["err"][-400:]))
                 return
             hist.append((k, args))
-            desc = dict(style=style, sessions=hist)
+            desc = dict(style=style, sessions=hist, shape=shape)
             executed = [tuple(json.loads(l)) for l in open(log).read().splitlines()]
             for a, got in zip(args, r["result"]["values"]):
                 ctx.count("calls_checked")
                 if got != [f"v{k}", a]:
-                    ctx.violation(f"wrong-version:processes-{style}", f"session {si} running version {k}: f({a}) returned {got}; sessions so far {hist}", desc)
+                    ctx.violation(f"wrong-version:processes-{style}" + (":" + shape if shape else ""), f"session {si} running version {k}: f({a}) returned {got}; sessions so far {hist}", desc)
                     return
             if si > 0 and versions[si - 1] == k:
                 ctx.count("unchanged_sessions_checked")
